@@ -121,6 +121,11 @@ pub struct SimSource<'a> {
     script: &'a [u64],
     si: usize,
     faults: Faults,
+    /// false: calls are counted, and faults fire, per refill (a buffered reader
+    /// over a failing device). true: every `read`/`fill_buf` call counts and may
+    /// fail, also while bytes are still exposed (a source that checks a deadline
+    /// or a cancellation flag on every call).
+    pub any_call: bool,
     pub rep: SourceReport,
     log: Hash64,
 }
@@ -134,6 +139,7 @@ impl<'a> SimSource<'a> {
             script,
             si: 0,
             faults,
+            any_call: false,
             rep: SourceReport::default(),
             log: Hash64::new(),
         }
@@ -150,7 +156,8 @@ impl<'a> SimSource<'a> {
     pub fn consumed(&self) -> usize {
         self.pos
     }
-    fn refill(&mut self) -> io::Result<()> {
+    #[inline]
+    fn fault_point(&mut self) -> io::Result<()> {
         self.rep.calls += 1;
         let k = self.faults.hit(self.rep.calls);
         if k != FK_NONE {
@@ -161,6 +168,12 @@ impl<'a> SimSource<'a> {
             }
             self.log.u(0x5100 + k);
             return Err(mk_err(k));
+        }
+        Ok(())
+    }
+    fn refill(&mut self) -> io::Result<()> {
+        if !self.any_call {
+            self.fault_point()?;
         }
         let left = self.data.len() - self.pos;
         let want = if self.script.is_empty() {
@@ -189,6 +202,9 @@ impl<'a> Read for SimSource<'a> {
         if buf.is_empty() {
             return Ok(0);
         }
+        if self.any_call {
+            self.fault_point()?;
+        }
         if self.pos == self.end {
             self.refill()?;
         }
@@ -202,6 +218,9 @@ impl<'a> Read for SimSource<'a> {
 
 impl<'a> BufRead for SimSource<'a> {
     fn fill_buf(&mut self) -> io::Result<&[u8]> {
+        if self.any_call {
+            self.fault_point()?;
+        }
         if self.pos == self.end {
             self.refill()?;
         }
